@@ -414,7 +414,16 @@ pub fn run(prop: u8, tier: &str) -> Report {
     let base = rc::all_cells(0);
     let q1 = rc::children(base[1]);
     let inits = vec![vec![0u64], vec![base[3]], vec![q1[0]], vec![rc::children(q1[2])[1]], vec![base[0], base[11]]];
-    let (max_res, max_len, max_depth) = if tier == "quick" { (2, 24, 5u8) } else { (3, 32, 7u8) };
+    let (mut max_res, mut max_len, mut max_depth) = if tier == "quick" { (2, 24, 5u8) } else { (3, 24, 6u8) };
+    // experiment knobs (not used by the registered commands)
+    if let Ok(v) = std::env::var("A5_SET_BOUNDS") {
+        let p: Vec<i64> = v.split(',').filter_map(|x| x.parse().ok()).collect();
+        if p.len() == 3 {
+            max_res = p[0] as i32;
+            max_len = p[1] as usize;
+            max_depth = p[2] as u8;
+        }
+    }
     let m = SetMachine { prop, max_res, max_len, max_depth, inits };
     let threads = std::thread::available_parallelism().map(|n| n.get()).unwrap_or(4);
     let checker = m.clone().checker().threads(threads).spawn_bfs().join();
